@@ -297,8 +297,9 @@ def gen_cases(tier, rng):
     for t, b in short_payloads(types=(8, 9), rests=(0, 3), lens=range(0, 10)):
         yield bcast(ALL_ON + ",da=1,dw=0", [P(9, 0, AVC_P)] + JOINS + [P(t, 40, b)], "bcast-short-dummy")
         if len(b):
-            yield Case("c05.ts %s" % ";".join([P(8, 0, AAC_SH), P(9, 0, AVC_SH), P(t, 40, b)]), cls="ts-short")
-            yield Case("c05.rtsp 0 %s" % ";".join([P(8, 0, AAC_SH), P(9, 0, AVC_SH), P(t, 40, b)]), cls="rtsp-short")
+            # what follows the hostile message shows whether it damaged the remuxer's state (cached headers)
+            yield Case("c05.ts %s" % ";".join([P(8, 0, AAC_SH), P(9, 0, AVC_SH), P(t, 40, b), P(9, 80, AVC_IDR), P(8, 80, AAC_RAW)]), cls="ts-short")
+            yield Case("c05.rtsp 0 %s" % ";".join([P(9, 0, AVC_SH), P(t, 40, b), P(8, 40, AAC_SH), P(9, 80, AVC_IDR), P(8, 80, AAC_RAW)]), cls="rtsp-short")
     for b in [b"", b"\x02", b"\x02\x00", b"\x02\x00\x0aonMetaData", b"\x02\x00\x0aonMetaData\x03", b"\x02\x00\x0aonMetaData\x08\x00\x00",
               b"\x03\x00\x00\x09", b"\x0c\xff\xff\xff\xff"]:
         yield bcast(ALL_ON, JOINS + [P(18, 0, b)], "bcast-short-first")
@@ -312,8 +313,9 @@ def gen_cases(tier, rng):
             for pre in PREAMBLES:
                 yield bcast(ALL_ON, pre[:2] + JOINS + pre[2:] + [P(t, 40, b)], "bcast-trunc-mid")
             if len(b):
-                yield Case("c05.ts %s" % ";".join(PREAMBLE_AVC[:2] + [P(t, 40, b), P(9, 80, AVC_IDR)]), cls="ts-trunc")
+                yield Case("c05.ts %s" % ";".join(PREAMBLE_AVC[:2] + [P(t, 40, b), P(9, 80, AVC_IDR), P(8, 80, AAC_RAW)]), cls="ts-trunc")
                 yield Case("c05.rtsp 0 %s" % ";".join([P(t, 0, b)] + PREAMBLE_AVC + [P(t, 40, b)]), cls="rtsp-trunc")
+                yield Case("c05.rtsp 0 %s" % ";".join([P(9, 0, AVC_SH), P(t, 40, b), P(8, 40, AAC_SH), P(9, 80, AVC_IDR), P(8, 80, AAC_RAW)]), cls="rtsp-trunc")
     # (4) NAL length fields: zero, one short, exact, one past the end, huge
     for sample in [AVC_IDR, AVC_IDR_PS, AVC_P, HEVC_IDR, HEVC_IDR_PS, HEVC_P]:
         for b in nal_len_mutations(sample):
